@@ -263,7 +263,7 @@ pub mod strgen {
             s.push((b' ' + rng.below(95) as u8) as char);
           }
         }
-        4..=7 => s.push_str(rng.pick(SPECIAL)),
+        4..=7 => s.push_str(*rng.pick(SPECIAL)),
         8 => {
           // arbitrary scalar value
           let cp = loop {
@@ -299,7 +299,7 @@ pub mod strgen {
   fn nasty_short(rng: &mut Rng) -> String {
     let mut s = String::new();
     for _ in 0..rng.range(1, 5) {
-      s.push_str(rng.pick(SPECIAL));
+      s.push_str(*rng.pick(SPECIAL));
     }
     s
   }
